@@ -291,6 +291,37 @@ func c05Families(tier string) []explore.Family {
 		}
 		r.Class("value/" + strconv.Itoa(len(s)))
 	}})
+	// the routes again, over the NAMES a route binds the value to (every identifier form of the expression
+	// language: with '-', '_', digits, a trailing '?', words of the vocabulary) next to neighbours whose names
+	// are prefixes / extensions of it and must keep their own values
+	rtNames := []string{"w", "ok?", "my-var", "_a", "a1", "x_y?", "w2", "if", "end", "capture", "a-b-c", "A", "w?"}
+	rtForms := []string{"{% capture NAME %}{{ v }}{% endcapture %}{{ NAME }}", "{% assign NAME = v %}{{ NAME }}", "{% capture NAME %}{{ v }}{% endcapture %}{% assign q = NAME %}{{ q }}",
+		"{% capture NAME %}{{ v }}{% endcapture %}{{ NAME | append: '' }}", "{% for NAME in l %}{{ NAME }}{% endfor %}", "{% capture NAME %}{{ v }}{% endcapture %}{% capture z %}{{ NAME }}{% endcapture %}{{ z }}",
+		"{%- capture NAME -%}{{ v }}{%- endcapture -%}{{ NAME }}", "{% assign NAME = v | append: '' %}{{ NAME | default: 'lost' }}", "{% capture NAME %}{{ v }}{% endcapture %}{{ NAME | default: 'lost' }}"}
+	rtVals := []string{"s", "a b", " {{ x }} ", "line\nline", "é-'\"", "}}%}"}
+	fams = append(fams, explore.Family{Name: "string-value-routes-by-variable-name", Count: int64(len(rtNames) * len(rtForms) * len(rtVals)), Run: func(i int64, r *explore.Rec) {
+		rx := radix{i}
+		val, form, name := rtVals[rx.next(len(rtVals))], rtForms[rx.next(len(rtForms))], rtNames[rx.next(len(rtNames))]
+		stem := strings.TrimSuffix(name, "?")
+		// neighbours: the name without its '?', with one more character, its first character
+		nb := []string{stem, stem + "x", stem + "_", stem[:1]}
+		src := strings.ReplaceAll(form, "NAME", name)
+		bind := map[string]any{"v": val, "l": []any{val}}
+		want := val
+		for _, n := range nb {
+			if n != name && n != "v" && n != "l" && n != "q" && n != "z" {
+				bind[n] = "<" + n + ">"
+				src += "|{{ " + n + " }}"
+				want += "|<" + n + ">"
+			}
+		}
+		r.Eval()
+		o := Render(c05.eng, src, bind)
+		r.Class("route-name/" + o.Class())
+		if o.Panic != nil || o.Err != nil || o.Out != want {
+			r.Violation("P6:string-value-verbatim:route-by-name", map[string]any{"template": src, "v": val, "name": name}, strconv.Quote(want), o.String())
+		}
+	}})
 	fams = append(fams, explore.Family{Name: "string-value-char-alphabet", Count: seqCount(K, 5), Run: func(i int64, r *explore.Rec) {
 		s := str(i)
 		r.Eval()
